@@ -31,6 +31,7 @@ from votelib.evaluate.sequential import \
 
 
 SUPPORTED_QUOTAS: List[str] = ['droop', 'hare']
+SYSTEM_KEYS: List[str] = ['title', 'method', 'quota', 'seats', 'random']
 
 
 class NotSupportedInSTV(votelib.io.core.NotSupportedInFormat):
@@ -271,6 +272,10 @@ def _load_system(lines: Iterable[str]) -> Tuple[
         elif key == 'ballots':
             if nick_orders:
                 # reorder nicks into order= spec
+                unknown = [nick for nick in nick_orders if nick not in nicks]
+                if unknown:
+                    raise STVParseError(f'unknown candidates in order=:'
+                                        f' {unknown!r}')
                 nicks = {nick: nicks[nick] for nick in nick_orders}
             return (
                 _create_system(**syscomps), candidates, nicks,
@@ -279,7 +284,11 @@ def _load_system(lines: Iterable[str]) -> Tuple[
         elif key == 'order':
             nick_orders = value.split()
         elif key in ('candidate', 'withdrawn'):
-            nick, name = value.split(None, 1)
+            try:
+                nick, name = value.split(None, 1)
+            except ValueError as err:
+                raise STVParseError(f'candidate line needs a nickname and'
+                                    f' a name: {line!r}') from err
             cand = votelib.candidate.Person(
                 name,
                 number=len(candidates)+1,
@@ -287,7 +296,11 @@ def _load_system(lines: Iterable[str]) -> Tuple[
             )
             candidates.append(cand)
             nicks[nick] = cand
+        elif key not in SYSTEM_KEYS:
+            raise STVParseError(f'unknown STV header key: {key!r}')
         elif key in syscomps:
+            if key != 'quota' or not isinstance(syscomps[key], str):
+                raise STVParseError(f'duplicate {key}= header line')
             syscomps[key] = (syscomps[key], value)
         else:
             syscomps[key] = value
@@ -346,7 +359,7 @@ def _parse_multiplier(mult: str, line_i: int) -> Number:
             return decimal.Decimal(mult)
         elif mult.isdigit():
             return int(mult)
-    except ValueError as err:
+    except (ValueError, ArithmeticError) as err:
         inner_err = err
     parse_err = STVParseError(f'invalid vote weight multiplier: {mult!r}'
                               f'on ballot line {line_i}')
@@ -366,12 +379,15 @@ def _load_ordered_votes(lines: Iterable[Tuple[Number, List[str]]],
         cand_order = []
         for item_i, item in enumerate(items):
             if item.isdigit():
+                if item_i >= len(candidates):
+                    raise STVParseError(f'more items than candidates'
+                                        f' on ballot line {line_i}')
                 cand_order.append((candidates[item_i], int(item)))
             elif item != '-':
                 raise STVParseError(f'invalid ordered vote item: {item!r}'
                                     f'on ballot line {line_i}')
         cand_order.sort(key=operator.itemgetter(1))
-        vote, indices = zip(*cand_order)
+        vote, indices = zip(*cand_order) if cand_order else ((), ())
         if indices != tuple(range(1, len(indices)+1)):
             raise STVParseError(f'invalid ranking indices: {indices!r}'
                                 f' on ballot line {line_i}')
@@ -424,13 +440,16 @@ def _create_evaluator(method: Optional[str] = None,
     elif not method:
         raise STVParseError('STV method not found')
     elif method != 'blt':
-        raise NotImplementedError(f'STV method not implemented: {method!r}')
+        raise STVParseError(f'STV method not implemented: {method!r}')
     if isinstance(quota, tuple):
         if len(quota) > 2:
             raise STVParseError(f'too many quota settings: {quota!r}')
         elif 'mandatory' in quota:
             mandatory_quota = True
-            quota = tuple(item for item in quota if item != 'mandatory')[0]
+            others = tuple(item for item in quota if item != 'mandatory')
+            if not others:
+                raise STVParseError(f'no quota type given: {quota!r}')
+            quota = others[0]
         else:
             raise STVParseError(f'unknown quota settings: {quota!r}')
     if quota is None:
